@@ -40,6 +40,12 @@ def strip_idx(e):
     return tuple(strip_idx(x) if isinstance(x, tuple) else x for x in e)
 
 
+def loop_fn(snap, body):
+    """the function a loop snapshot belongs to (the analysed function itself, or a helper read as part of it)"""
+    v = snap.get(("_fn", ()))
+    return v[1] if v else body.key
+
+
 def find_scans(f, L, body, paths):
     """group loop-body paths by loop header; only loops whose set mentions an empty-board ray are scans"""
     scans = {}
@@ -62,11 +68,16 @@ def find_scans(f, L, body, paths):
             sc = Scan()
             sc.header = hdr
             sc.S = S
-            key = [k for k in p.pre_loop if k[0] == 0]
             sc.pre = {}
-            sc.loop_heads = {k[1] for k in p.pre_loop if k[0] == 0}
+            # (loops of helpers read as part of this function count like its own)
+            sc.frame_fn = body.key
             for k, snap in p.pre_loop.items():
-                if k[0] == 0:
+                for v in snap.values():
+                    if v is not None and v[0] in ("iter", "iter*", "iterk") and strip_idx(L.lift(v[1])) == S:
+                        sc.frame_fn = loop_fn(snap, body)         # the function whose loop iterates the attacker set
+            sc.loop_heads = {k[1] for k, snap in p.pre_loop.items() if loop_fn(snap, body) == sc.frame_fn}
+            for k, snap in p.pre_loop.items():
+                if loop_fn(snap, body) == sc.frame_fn:
                     for (nm, path), v in snap.items():
                         if v is not None and path:
                             sc.pre[nm + "".join("." + h[1] for h in path)] = L.lift(v)
@@ -183,8 +194,9 @@ def walk_accs(root, val, body):
                     yield from rec(x, nm, depth + 1)
     if root[0] == "P":
         yield from rec(val, "*" + root[1])
-    elif root[0] == "L" and root[1] == 0:
-        nm = body.local_name(root[2])
+    elif root[0] == "L":
+        # (a local of a helper read as part of this function: named after the havoc value it carries)
+        nm = body.local_name(root[2]) if root[1] == 0 else "helper-local-%d-%d" % (root[1], root[2])
         if isinstance(val, tuple) and val and val[0] == "tuple":
             for i, x in enumerate(val[1]):
                 if isinstance(x, tuple) and x and x[0] in ("or", "and", "xor") and sym.contains(x, lambda y: y[0] == "hv"):
